@@ -55,7 +55,7 @@ class TreeRunner:
             for ev in p.events:
                 finds.append((p.cond(), ev))
         return {'res': sr_term(val) if val is not None else None, 'panic': pc, 'panics': panics,
-                'finds': finds, 'paths': len(results)}
+                'finds': finds, 'paths': len(results), 'results': results}
 
     def render_doc(self, model):
         return self.doc.render(model)
